@@ -154,6 +154,13 @@ def run(P, chk, tier):
                 fam = fam if fam is not None else fam_in
                 eq = eq or eq_in
                 c = sk(rv)
+                if c.get("k") == "Ref":
+                    # `res = memcmp(..); return res;` (also what an inlined comparison helper looks like): the call
+                    # whose result the variable holds on this path
+                    for g in d:
+                        if g.kind == "cmp" and g.op == "==" and g.key[0] == pp(c) and sk(g.r).get("k") == "Call":
+                            c = sk(g.r)
+                            break
                 if c.get("k") == "Call" and c.get("fn") != "memcmp" and depth < 2:
                     tgt = P.callee(c, f)
                     if tgt is not None:
